@@ -11,6 +11,7 @@ import (
 	"sync/atomic"
 
 	"github.com/beevik/etree"
+	saml2 "github.com/russellhaering/gosaml2"
 	"github.com/russellhaering/gosaml2/uuid"
 
 	"verif/harness/mon"
@@ -18,12 +19,14 @@ import (
 
 func init() {
 	register(&Prop{ID: "C18", Run: runC18, Workers: 1, MinNontrivial: 1000, RaceSecondPass: true,
-		Rule:        "one process, 16 goroutines: N direct uuid.NewV4 draws and M built messages (AuthnRequest, LogoutRequest, LogoutResponse, signed and unsigned, across many SP instances) with crypto/rand.Reader replaced at start by a pass-through spy that records every read and whether its stack contains uuid.NewV4; oracle: canonical lower-case 8-4-4-4-12 form, version 4, variant 10, message ID = '_' + UUID (an NCName), all identifiers distinct, every UUID's 122 free bits equal a 16-byte read delivered by the spy inside NewV4 (each read consumed exactly once), every free bit set in 45-55% of draws; a case = one batch of draws; non-trivial/distinct counts are identifiers checked",
+		Rule:        "one process, 16 goroutines: N direct uuid.NewV4 draws and M built messages (AuthnRequest, LogoutRequest, LogoutResponse, signed and unsigned, across many SP instances, incl. providers copied by value after use) plus a single-goroutine phase in which the random source delivers short reads of 1/5/8/15 bytes with crypto/rand.Reader replaced at start by a pass-through spy that records every read and whether its stack contains uuid.NewV4; oracle: canonical lower-case 8-4-4-4-12 form, version 4, variant 10, message ID = '_' + UUID (an NCName), all identifiers distinct, every UUID's 122 free bits equal a 16-byte read delivered by the spy inside NewV4 (each read consumed exactly once), every free bit set in 45-55% of draws; a case = one batch of draws; non-trivial/distinct counts are identifiers checked",
 		Assumptions: []string{"unpredictable is decided as: taken unmodified from crypto/rand.Reader; the quality of the kernel source is trusted", "the bit-balance bound is >30 sigma wide at the quick tier's sample size"}})
 }
 
 type randSpy struct {
 	inner   io.Reader
+	chunk   atomic.Int64 // when > 0, deliver at most this many bytes per Read (a legal io.Reader behaviour)
+	stream  []byte       // in chunk mode: every byte delivered inside uuid.NewV4, in order (single goroutine)
 	mu      sync.Mutex
 	uuidRds map[[16]byte]int // masked 16-byte reads made from inside uuid.NewV4
 	reads   atomic.Int64
@@ -38,6 +41,9 @@ func maskV4(b [16]byte) [16]byte {
 }
 
 func (s *randSpy) Read(p []byte) (int, error) {
+	if c := int(s.chunk.Load()); c > 0 && len(p) > c {
+		p = p[:c]
+	}
 	n, err := s.inner.Read(p)
 	s.reads.Add(1)
 	pc := make([]uintptr, 12)
@@ -53,6 +59,12 @@ func (s *randSpy) Read(p []byte) (int, error) {
 		if !more {
 			break
 		}
+	}
+	if in && s.chunk.Load() > 0 {
+		s.mu.Lock()
+		s.stream = append(s.stream, p[:n]...)
+		s.mu.Unlock()
+		return n, err
 	}
 	if in && n == 16 && len(p) == 16 {
 		var b [16]byte
@@ -202,6 +214,49 @@ func runC18(c *mon.Ctx) {
 	}
 	wg.Wait()
 
+	// phase 3: SP instances copied by value after use keep issuing fresh identifiers
+	copyCols := make([]collected, 1)
+	{
+		ksp := NewKeyedSP(now, KeyCfg{EncField: true})
+		base := ksp.SP
+		take := func(sp *saml2.SAMLServiceProvider, n int) {
+			for i := 0; i < n; i++ {
+				var doc *etree.Document
+				var err error
+				switch i % 3 {
+				case 0:
+					doc, err = sp.BuildAuthRequestDocumentNoSig()
+				case 1:
+					doc, err = sp.BuildLogoutRequestDocumentNoSig("u", "s")
+				default:
+					doc, err = sp.BuildLogoutResponseDocumentNoSig("st", "r")
+				}
+				if err == nil && doc != nil && doc.Root() != nil {
+					if id := doc.Root().SelectAttrValue("ID", ""); strings.HasPrefix(id, "_") {
+						copyCols[0].ids = append(copyCols[0].ids, id[1:])
+					}
+				}
+			}
+		}
+		for round := 0; round < c.N(40, 400); round++ {
+			take(base, 1+round%7)
+			tenantA := *base //nolint:govet // a by-value copy of a used provider is what deployments with per-tenant tweaks do
+			tenantB := tenantA
+			take(&tenantA, 5)
+			take(base, 5)
+			take(&tenantB, 5)
+		}
+	}
+	// phase 4: a random source that delivers short reads (1, 5, 8 bytes at a time), single goroutine
+	var shortIDs []string
+	for _, ch := range []int64{1, 5, 8, 15} {
+		spy.chunk.Store(ch)
+		for i := 0; i < c.N(300, 5000); i++ {
+			shortIDs = append(shortIDs, uuid.NewV4().String())
+		}
+	}
+	spy.chunk.Store(0)
+
 	// ---- oracle over the recorded events ----
 	cs := c.Begin("identifiers", 0)
 	if cs == nil {
@@ -250,6 +305,30 @@ func runC18(c *mon.Ctx) {
 			check(s, true)
 		}
 	}
+	for _, s := range copyCols[0].ids {
+		check(s, true)
+	}
+	c.Count("identifiers_from_copied_providers", int64(len(copyCols[0].ids)))
+	// short-read phase: identifier i must be the masked bytes [16i, 16i+16) of what the source delivered
+	if len(spy.stream) != 16*len(shortIDs) {
+		cs.Violation("short-read-accounting", "with a source delivering short reads uuid.NewV4 consumed %d bytes for %d identifiers", len(spy.stream), len(shortIDs))
+	} else {
+		for i, s := range shortIDs {
+			var raw [16]byte
+			copy(raw[:], spy.stream[16*i:])
+			b, ok := fastParseUUID(s)
+			if !uuidRe.MatchString(s) || !ok || b != maskV4(raw) {
+				cs.Violation("short-read-entropy-lost", "identifier %d drawn from a short-reading source is %s, the source delivered %x", i, s, raw)
+				break
+			}
+			if _, dup := seen[b]; dup {
+				cs.Violation("duplicate-identifier", "identifier %s was produced twice", s)
+				break
+			}
+			seen[b] = struct{}{}
+		}
+	}
+	c.Count("identifiers_from_short_reads", int64(len(shortIDs)))
 	if n := badFormat.Load(); n > 0 {
 		fb, _ := firstBad.Load().(string)
 		cs.Violation("identifier-format", "%d identifiers with a bad format; first: %s", n, fb)
